@@ -26,6 +26,16 @@
             out.push(format!("solve\ns.t.\n    {}\n{}", e, bdecl));
             out.push(format!("solve\ns.t.\n    named: {}\n    p + q + r >= 1\n{}", e, bdecl));
         }
+        // every (parent, child, side) pair of logic connectives
+        let lops = ["and", "or", "xor", "implies", "iff"];
+        for o1 in lops { for o2 in lops {
+            out.push(format!("solve\ns.t.\n    (p {} q) {} r\n{}", o2, o1, bdecl));
+            out.push(format!("solve\ns.t.\n    p {} (q {} r)\n{}", o1, o2, bdecl));
+            out.push(format!("max p + q + r\ns.t.\n    not (p {} q) {} r\n    p {} not (q {} r)\n{}", o2, o1, o1, o2, bdecl));
+        } }
+        for e in ["(p and q) + r >= 1", "p + (q or r) <= 1", "(p implies q) + (q iff r) >= 1", "(p xor q) - r = 0", "2 * (p and q) <= r + 1", "1.000001 * p + q <= 1"] {
+            out.push(format!("max p + q + r\ns.t.\n    {}\n{}", e, bdecl));
+        }
         out.push("min sum(i in 0..n) { x_i * (i + 1) }\ns.t.\n    row_i: x_i - (k - i) >= 0 for i in 0..n\nwhere\n    let n = 3\n    let k = 2\ndefine\n    x_i as NonNegativeReal for i in 0..n".to_string());
         out.push("max sum((v, i) in enumerate(vals)) { v * x_i }\ns.t.\n    sum((w, i) in enumerate(ws)) { w * x_i } <= cap\nwhere\n    let ws = [10, 60, 30]\n    let vals = [1, 10, 15]\n    let cap = 62\ndefine\n    x_i as Boolean for i in 0..len(ws)".to_string());
         out.push("min a - (b - c)\ns.t.\n    c1: a - (b + c) >= -3\n    c1: a / (2 * 4) <= 1\ndefine\n    a as Real(-5, 5)\n    b as IntegerRange(-2, 3)\n    c as NonNegativeReal(0, 4)".to_string());
